@@ -414,7 +414,54 @@ def r8(F, rep):
         raise AnalysisBroken("C11-R8: no write-then-rename sequence found (colvarbias_meta::write_replica_state_file expected)")
 
 
+def r9(F, rep):
+    rep.rule("C11-R9", "a count read from a state or data stream does not size an allocation unchecked: in the reader functions, an "
+                       "integer local that is filled by extraction (is >> n, or passed by reference to a helper that extracts) "
+                       "and then used as the argument of resize / reserve / assign is bounded from above by a dominating "
+                       "comparison first (== expected, <= limit): a damaged count would otherwise allocate, and then walk, as "
+                       "many elements as its bytes happen to say")
+    n = 0
+    for f in F.funcs.values():
+        if "/src/" not in f.file or f.body is None:
+            continue
+        if not any(k in (f.name or "") for k in ("read_state", "read_raw", "read_restart", "read_hill", "read_multicol", "set_state", "read_replica")):
+            continue
+        ints = {d["d"]: d for d in f.walk() if d["k"] == "VarDecl" and d.get("st") == "local" and X.is_int_type(f.typestr(d.get("t")))}
+        if not ints:
+            continue
+        filled = set()
+        for c in f.walk():
+            if c["k"] in ("CallExpr", "CXXMemberCallExpr", "CXXOperatorCallExpr"):
+                for i, a in enumerate(X.call_args(c)):
+                    sa = X.strip(a)
+                    if sa["k"] == "DeclRefExpr" and sa.get("d") in ints and (i in (c.get("refargs") or []) or (c["k"] == "CXXOperatorCallExpr" and c.get("op") == ">>" and i == 1)):
+                        filled.add(sa["d"])
+        seen = set()
+        res = X.const_locals(f)
+        for c in X.calls(f):
+            if c["k"] != "CXXMemberCallExpr" or X.callee_name(c) not in ("resize", "reserve", "assign") or not X.call_args(c):
+                continue
+            for m in f.walk(X.call_args(c)[0]):
+                if m["k"] != "DeclRefExpr" or m.get("d") not in filled:
+                    continue
+                key = (f.q.split("<")[0], ints[m["d"]]["n"], X.re_strip(X.key(X.receiver(c), f)) if X.receiver(c) is not None else "")
+                if key in seen:
+                    continue
+                seen.add(key)
+                n += 1
+                nk = X.key(m, f, res)
+                facts, _ = C.guard_facts(f, c, res)
+                ok = any(t[0] == "eq" and nk in (t[1], t[2]) or
+                         (t[0] == "cmp" and ((t[1] in ("<", "<=", "==") and t[2] == nk) or (t[1] in (">", ">=") and t[3] == nk))) for t in facts)
+                rep.add("C11-R9", "%s|%s|%s" % key, f.loc(c), "%s sizes `%s` with the extracted count `%s`; an upper bound on it dominates the allocation: %s" % (
+                    f.q, key[2], key[1], ok), ok,
+                    detail="a flipped high byte in the count makes the reader allocate and loop over millions of elements before it notices that the data ended", func=f.q)
+    if n < 1:
+        raise AnalysisBroken("C11-R9: no allocation sized by an extracted count found in the readers (read_multicol expected)")
+
+
 def run(F, rep, tier):
+    r9(F, rep)
     r8(F, rep)
     r6(F, rep)
     r7(F, rep)
